@@ -693,6 +693,40 @@ def gen(tier, rng, shard, nshards):
                     views = [(False, data)]
                 yield emit(entry(), B, False, None, data, views)
 
+        # ---- 7d. a DETECTED XorEncoded stage whose decoded view holds no block under the tried keys, while the raw file does
+        #          (inside the loader stub, or as an overlay appended behind the stage): found in the raw view, xorencoded = False
+        for rep in range(16 if thorough else 5):
+            for where in ("stub", "overlay"):
+                if not mine():
+                    continue
+                kr = rng.choice(DEFAULT_KEYS)
+                hidden = bytes([rng.choice([0x77, 0xAF, 0x13])])       # the view's own block is under a key nobody tries
+                B = rng.choice([8192, 8192, 256])
+                off = rng.choice([720, 900, 1500])
+                if where == "stub":
+                    data, views = build_case(rng, key=hidden, keys=None, ak=False, container=rng.choice(["xs", "xsm", "xm"]), off=off,
+                                             total=off + 128 + 60, filler=rng.choice(["zero", "random"]), B=B, blocksize=128, stub_decoy=kr)
+                else:
+                    for _attempt in range(20):
+                        data, views = build_case(rng, key=hidden, keys=None, ak=False, container="xm", off=off, total=off + 128 + 60,
+                                                 filler=rng.choice(["zero", "random"]), B=B, blocksize=128, stublen=rng.choice([3, 64, 300]))
+                        overlay = bytes(mk_filler(rng, rng.choice([0, 1, 123]), "random")) + bxor(cfg_block(rng, rng.choice([64, 200]), 2, "zero"), kr) \
+                            + bytes(mk_filler(rng, rng.choice([0, 31]), "random"))
+                        # the decoded view continues over the overlay (every dword decoded with the preceding encoded dword)
+                        noff = len(data) - len(views[0][1]) - 8
+                        full = data + overlay
+                        enc = full[noff + 8:]
+                        dec = bytes(b ^ (full[noff + i] if i < 4 else enc[i - 4]) for i, b in enumerate(enc))
+                        assert dec[:len(views[0][1])] == views[0][1]
+                        vv = [(True, dec), (False, full)]
+                        c = first_candidate(vv, tried_keys(None, False))
+                        if c is not None and c[0] is False:
+                            data, views = full, vv
+                            break
+                    else:
+                        continue
+                yield emit(entry(), B, False, None, data, views)
+
     # ---- 8. random mix
     for _ in range((600 if thorough else 60) // nshards):
         key = bytes([rng.randrange(256)])
